@@ -16,6 +16,11 @@ code -> spec : seeded random results outside the enumerated domain (3 datasets, 
                RenderTrace.tla / TableOpsTrace.tla.  Every TableTemplate a representer produced is
                additionally validated as a zero-operation TableOps trace (cells read back as the
                formatted inputs).
+layouts      : the expected rendering depends on the numbers of the datasets only, not on how they are stored: every
+               enumerated / random dataset case is also presented (in rotation) with Fortran-ordered arrays, transposed
+               views, strided slices of a larger buffer, integer dtype, all datasets alike or each its own (case['lay']),
+               and judged by the same clauses; random 2-d table-operation cases get Fortran / transposed / strided
+               columns and masks.
 """
 import io
 import json
@@ -53,8 +58,40 @@ def _nbins(shape):
     return int(np.prod(shape)) if shape else 1
 
 
+LAYS_ND = ('F', 'T', 'strided', 'int', 'F+C', 'C+T', 'strided+F')     # rotation for >= 2-d datasets
+LAYS_1D = ('strided', 'int', 'int+C')                                  # F / T do not change a 1-d array
+LAYS_0D = ('int',)
+
+
+def _lay(arr, lay, is_value=False):
+    """The same numbers stored / typed differently: 'F' Fortran order, 'T' a transposed view, 'strided' every other
+    element of a larger buffer, 'int' integer values where the numbers allow (errors stay float)."""
+    if lay == 'int':
+        if is_value and np.all(np.isfinite(arr)) and np.all(np.asarray(arr) == np.round(arr)):
+            return np.int64(arr) if np.ndim(arr) == 0 else np.asarray(arr).astype(np.int64)
+        return arr
+    if np.ndim(arr) == 0 or lay in (None, 'C'):
+        return arr
+    if lay == 'F':
+        return np.asfortranarray(arr)
+    if lay == 'T':
+        return np.ascontiguousarray(arr.T).T
+    if lay == 'strided':
+        big = np.zeros(arr.shape[:-1] + (2 * arr.shape[-1],), dtype=arr.dtype)
+        big[..., ::2] = arr
+        return big[..., ::2]
+    raise ValueError('unknown layout %r' % (lay,))
+
+
+def _lay_of(case, d):
+    """Layout of dataset d (0 = the reference): case['lay'] = 'F' (all datasets) or 'F+C' (per dataset, cycled)."""
+    lays = (case.get('lay') or 'C').split('+')
+    return lays[d % len(lays)]
+
+
 def _datasets(case):
-    """Reference and compared datasets: every (dataset, bin) has its own value / error / edges."""
+    """Reference and compared datasets: every (dataset, bin) has its own value / error / edges.  case['lay'] says how
+    the arrays are stored (same numbers, other memory layout / dtype): see _lay."""
     from valjean.eponine.dataset import Dataset
     shape = tuple(case['shape'])
     n = _nbins(shape)
@@ -64,8 +101,9 @@ def _datasets(case):
         bins[DIMS[k]] = 100.0 * (k + 1) + np.arange(m + 1, dtype=float)
     rval = 10.0 * (np.arange(n, dtype=float) + 1)
     rerr = 0.5 + np.arange(n, dtype=float) / 8.0
-    mk = lambda a: a.reshape(shape) if shape else np.float64(a[0])
-    ref = Dataset(mk(rval), mk(rerr), bins=OrderedDict((k, v.copy()) for k, v in bins.items()), name=REF)
+    mk0 = lambda a: a.reshape(shape) if shape else np.float64(a[0])
+    lay = _lay_of(case, 0)
+    ref = Dataset(_lay(mk0(rval), lay, True), _lay(mk0(rerr), lay), bins=OrderedDict((k, v.copy()) for k, v in bins.items()), name=REF)
     others = []
     for d, row in enumerate(fail):
         val = rval.copy()
@@ -77,7 +115,8 @@ def _datasets(case):
                 val[b] += 1000.0 * (d + 1)
             elif st == 2:
                 val[b] += MID_T * float(np.sqrt(rerr[b] ** 2 + err[b] ** 2))
-        others.append(Dataset(mk(val), mk(err), bins=OrderedDict((k, v.copy()) for k, v in bins.items()),
+        lay = _lay_of(case, d + 1)
+        others.append(Dataset(_lay(mk0(val), lay, True), _lay(mk0(err), lay), bins=OrderedDict((k, v.copy()) for k, v in bins.items()),
                               name=DSNAMES[d]))
     return ref, others
 
@@ -389,8 +428,9 @@ def _cell_text(t, c, r, ncols):
     return 's%d%d%d' % (t, c, r) if c == 1 else _fmt(_cell_number(t, c, r))
 
 
-def make_source(t, nrows, masks, ncols, shape=None):
-    """A real TableTemplate for source table t; masks[c] = list of bool per row for column c+1.
+def make_source(t, nrows, masks, ncols, shape=None, lay=None):
+    """A real TableTemplate for source table t; masks[c] = list of bool per row for column c+1; lay: how the (2-d)
+    columns and masks are stored (see _lay; the same for all of them).
     Returns (template, json table {cols: [[text]], hls: [[bool]]})."""
     from valjean.javert.templates import TableTemplate
     shp = tuple(shape) if shape else (nrows,)
@@ -400,8 +440,8 @@ def make_source(t, nrows, masks, ncols, shape=None):
             col = np.array(['s%d%d%d' % (t, c, r) for r in range(1, nrows + 1)]).reshape(shp)
         else:
             col = np.array([_cell_number(t, c, r) for r in range(1, nrows + 1)], dtype=float).reshape(shp)
-        cols.append(col)
-        hls.append(np.array(masks[c - 1], dtype=bool).reshape(shp))
+        cols.append(_lay(col, lay))
+        hls.append(_lay(np.array(masks[c - 1], dtype=bool).reshape(shp), lay))
         jcols.append([_cell_text(t, c, r, ncols) for r in range(1, nrows + 1)])
     tab = TableTemplate(*cols, headers=['h%d' % c for c in range(1, ncols + 1)], highlights=hls)
     return tab, dict(cols=jcols, hls=[[bool(x) for x in m] for m in masks])
@@ -432,8 +472,8 @@ def read_table(template):
 def run_table_ops(case):
     """case = dict(ncols, n1, m1, n2, m2, ops=[dict(op, a, b)], shape1/shape2 optional) -> trace record fields."""
     from valjean.javert.templates import join as tjoin
-    t1, j1 = make_source(1, case['n1'], case['m1'], case['ncols'], case.get('shape1'))
-    t2, j2 = make_source(2, case['n2'], case['m2'], case['ncols'], case.get('shape2'))
+    t1, j1 = make_source(1, case['n1'], case['m1'], case['ncols'], case.get('shape1'), case.get('lay'))
+    t2, j2 = make_source(2, case['n2'], case['m2'], case['ncols'], case.get('shape2'), case.get('lay'))
     cur = t1
     try:
         for op in case['ops']:
@@ -551,7 +591,30 @@ def render_key(case, clauses, obs):
     key = 'C12/%s/%s' % (case['kind'], '+'.join(clauses))
     if clauses == ['NoRaise']:
         key += '/' + obs.get('why', '?').split(':')[0]
-    return key
+    return key + _lay_suffix(case)
+
+
+def _lay_suffix(case):
+    return '/lay-' + case['lay'] if case.get('lay') else ''
+
+
+def layout_variants(cases, start=0):
+    """The same results with the arrays of the datasets stored differently (Fortran order, transposed view, strided
+    slice of a larger buffer, integer dtype; all datasets alike or each its own), in rotation over the cases that can
+    show a table.  The expected rendering does not depend on the layout: the variants are judged like their base case."""
+    out, k = [], {0: start, 1: start, 2: start}
+    for c in cases:
+        if c['kind'] not in DS_KINDS or c['verb'] == 'SILENT' or c.get('lay'):
+            continue
+        nd = min(2, len([m for m in c['shape'] if m > 1]))
+        rot = (LAYS_0D, LAYS_1D, LAYS_ND)[nd]
+        out.append(dict(c, lay=rot[k[nd] % len(rot)]))
+        k[nd] += 1
+    return out
+
+
+def _sig(case):
+    return json.dumps(case, sort_keys=True)
 
 
 def _nontrivial(obs):
@@ -566,7 +629,8 @@ def check_renderings(ctx, cases, wd, n_enum):
     for cid, (case, (obs, tokens, tabs)) in enumerate(zip(cases, results), 1):
         records.append(trace_record(cid, case, obs, tokens))
         if _nontrivial(obs):
-            ctx.distinct((case['kind'], tuple(case['shape']), tuple(map(tuple, case['fail'])), case['verb'], case['rep']))
+            ctx.distinct((case['kind'], tuple(case['shape']), tuple(map(tuple, case['fail'])), case['verb'], case['rep'],
+                          case.get('lay')))
         for k, (jt, tobs) in enumerate(tabs):
             sig = json.dumps([jt, tobs['raised'], tobs['invalid'], tobs['rows']], sort_keys=True)
             tables.setdefault(sig, (case, k, jt, tobs))
@@ -576,10 +640,14 @@ def check_renderings(ctx, cases, wd, n_enum):
     chunks = [(lo, records[lo:lo + step]) for lo in range(0, len(records), step)]
     with ThreadPoolExecutor(max(1, min(4, len(chunks)))) as pool:
         judged = list(pool.map(lambda ch: judge(ch[1], wd, 'b%d' % ch[0]), chunks))
+    base_bad = {_sig(cases[cid - 1]): clauses for _, (_, bad) in zip(chunks, judged) for cid, clauses in bad.items()
+                if not cases[cid - 1].get('lay')}
     for (lo, _), (res, bad) in zip(chunks, judged):
         ctx.tlc(res, 'RenderTrace/cases[%d:%d]' % (lo, lo + step))
         for cid, clauses in sorted(bad.items()):
             case, (obs, _, _) = cases[cid - 1], results[cid - 1]
+            if case.get('lay') and base_bad.get(_sig({k: v for k, v in case.items() if k != 'lay'})) == clauses:
+                continue                   # the base case fails in the same way: the layout is not the cause
             ctx.violation(render_key(case, clauses, obs),
                           'clauses %s of Render.tla are false on the rendering (%s); projection %s'
                           % (clauses, obs.get('why', ''), json.dumps(obs['parts'])[:600]),
@@ -597,7 +665,7 @@ def check_representer_tables(ctx, tables, wd, tag):
     recs, meta = [], []
     for case, k, jt, tobs in tables.values():
         if jt is None:
-            ctx.violation('C12/table-readback/%s/raised' % case['kind'], tobs['why'], dict(type='readback', case=case, table=k), module=MOD)
+            ctx.violation('C12/table-readback/%s/raised%s' % (case['kind'], _lay_suffix(case)), tobs['why'], dict(type='readback', case=case, table=k), module=MOD)
             continue
         recs.append(table_record(len(recs) + 1, jt, _EMPTY, [], tobs))
         meta.append((case, k, jt, tobs))
@@ -607,7 +675,7 @@ def check_representer_tables(ctx, tables, wd, tag):
     ctx.tlc(res, 'TableOpsTrace/' + tag)
     for cid, why in sorted(bad.items()):
         case, k, jt, tobs = meta[cid - 1]
-        ctx.violation('C12/table-readback/%s/%s' % (case['kind'], why),
+        ctx.violation('C12/table-readback/%s/%s%s' % (case['kind'], why, _lay_suffix(case)),
                       'table %d of the rendering does not read back as its formatted inputs (%s): inputs %s, read back %s'
                       % (k, why, json.dumps(jt)[:300], json.dumps(tobs['rows'])[:300]),
                       dict(type='readback', case=case, table=k), module=MOD)
@@ -730,6 +798,9 @@ def random_table_cases(rng, n):
         case = dict(ncols=ncols, n1=n1, m1=mask(n1), n2=n2, m2=mask(n2), ops=ops)
         if two_d:
             case.update(shape1=list(sh1), shape2=list(sh2))
+            lay = (None, 'F', 'T', 'strided')[len(out) % 4]
+            if lay:
+                case['lay'] = lay
         out.append(case)
     return out
 
@@ -751,7 +822,7 @@ def check_random_tables(ctx, cases, wd):
         sub, obs, k = meta[cid - 1]
         if k > 1 and (cid - 1) in bad:
             continue
-        ctx.violation('C12/table/%s/%s%s' % (sub['ops'][-1]['op'], why, '/2d' if 'shape1' in sub else ''),
+        ctx.violation('C12/table/%s/%s%s%s' % (sub['ops'][-1]['op'], why, '/2d' if 'shape1' in sub else '', _lay_suffix(sub)),
                       'after %s the rows read back differ from what TableOps.tla computes (%s): %s %s'
                       % (sub['ops'], why, [[(c['s'], c['hl']) for c in r] for r in obs['rows']], obs.get('why', '')),
                       dict(type='tableops', case=sub), module=MOD)
@@ -787,7 +858,9 @@ def run_c12(ctx):
              'state of TableOps.tla (operation sequences) is re-executed on real TableTemplates and the table read '
              'back from RstTable text is compared with the TLC value.  code->spec: seeded random results / '
              'operation sequences outside those domains validated by RenderTrace.tla / TableOpsTrace.tla; every '
-             'TableTemplate a representer produced is validated as a zero-operation trace.  distinct_nontrivial = '
+             'TableTemplate a representer produced is validated as a zero-operation trace.  Dataset cases that can '
+             'show a table are repeated with the same numbers stored differently (Fortran order, transposed view, '
+             'strided slice, integer dtype; per dataset or all alike), in rotation.  distinct_nontrivial = '
              'distinct inputs whose rendering carries a mark or a table (or raises) + distinct random operation '
              'sequences (+ 1 in 499 of the enumerated ones).')
     ctx.assume('marks shown for the Student test underlying a Bonferroni / Holm result are attributed to that Student '
@@ -852,9 +925,18 @@ def run_c12(ctx):
     if ctx.quick:
         twins = [c for c in twins if len(c['fail']) == 1][::2]
     cases += twins
+    # the same results with the arrays stored differently (memory layout / dtype), in rotation over the cases
+    order = sorted(cases, key=lambda c: json.dumps(c, sort_keys=True))
+    lays = layout_variants(order)
+    if ctx.quick:
+        lays = [c for c in lays if len(c['shape']) >= 2 or len(c['fail']) == 1]
+        lays = [c for k, c in enumerate(lays) if len(c['shape']) >= 2 or k % 2 == 0]    # all >= 2-d ones, half of the others
+    cases += lays
     n_enum = len(cases)
     # 3. code -> spec: random results outside the enumerated domain (rendered and judged in the same batches)
-    cases += [c for c in random_render_cases(ctx.rng, ctx.pick(1000, 20000)) if json.dumps(c, sort_keys=True) not in seen]
+    rnd = [c for c in random_render_cases(ctx.rng, ctx.pick(1000, 20000)) if json.dumps(c, sort_keys=True) not in seen]
+    rnd_lays = layout_variants(rnd, start=1)
+    cases += rnd + rnd_lays
     tables, results = check_renderings(ctx, cases, wd, n_enum)
     dispatch = {}
     for case, (obs, _, _) in zip(cases[:n_enum], results):
@@ -863,7 +945,10 @@ def run_c12(ctx):
             ('%s-table' % p['axis'] if p['type'] == 'table' else 'text') + ('*' if p['mark'] else '') for p in obs['parts']))) or 'nothing'
         dispatch.setdefault('%s/%s/%s/%s' % (case['kind'], case['verb'], case['rep'], verdict), set()).add(form)
     ctx.cov['dispatch_observed'] = {k: sorted(v) for k, v in sorted(dispatch.items())}
-    ctx.cov['inputs'] = dict(enumerated_by_tlc=n_enum, seeded_random=len(cases) - n_enum)
+    ctx.cov['inputs'] = dict(enumerated_by_tlc=n_enum, seeded_random=len(cases) - n_enum,
+                             of_which_layout_variants=[len(lays), len(rnd_lays)],
+                             layout_variants_by_layout={l: sum(1 for c in lays + rnd_lays if c['lay'] == l)
+                                                        for l in sorted(set(LAYS_0D + LAYS_1D + LAYS_ND))})
     _tick(ctx, 'renderings (enumerated + random)')
     check_representer_tables(ctx, tables, wd, 'representer-tables')
     _tick(ctx, 'representer tables')
